@@ -17,7 +17,7 @@ Ev == Rec[i]
 
 StepReset ==
     /\ Ev.ev = "Reset"
-    /\ N' = Ev.n /\ Groups' = Ev.groups
+    /\ N' = Ev.n /\ Groups' = Ev.groups /\ failAt' = Ev.fail
     /\ nextIn' = 1
     /\ chan' = [g \in 1..Len(Ev.groups) |-> <<>>] /\ out' = [g \in 1..Len(Ev.groups) |-> <<>>]
     /\ buf' = [g \in 1..Len(Ev.groups) |-> "select"]
@@ -29,17 +29,19 @@ StepArrive   == Ev.ev = "Arrive"   /\ nextIn = Ev.x /\ Arrive
 StepXfer     == Ev.ev = "Xfer"     /\ GXfer(Ev.g) /\ Head(out[Ev.g - 1]) = Ev.x /\ Xfer(Ev.g)
 StepYield    == Ev.ev = "Yield"    /\ GYield /\ Head(out[NG]) = Ev.x /\ Yield
 StepInput    == Ev.ev = "Input"    /\ GSelectInput(Ev.g) /\ Head(chan[Ev.g]) = Ev.x /\ Aborted(Ev.g) = Ev.ab /\ SelectInput(Ev.g)
-StepBufDone  == Ev.ev = "BufDone"  /\ GBufDone(Ev.g) /\ busy[FirstOf(Ev.g)] = Ev.x /\ BufDone(Ev.g)
+StepBufDone  == Ev.ev = "BufDone"  /\ GBufDone(Ev.g) /\ busy[FirstOf(Ev.g)] = Ev.x /\ ~Fails(FirstOf(Ev.g), Ev.x) /\ BufDone(Ev.g)
+StepBufFail  == Ev.ev = "BufFail"  /\ GBufDone(Ev.g) /\ busy[FirstOf(Ev.g)] = Ev.x /\ Fails(FirstOf(Ev.g), Ev.x) /\ BufDone(Ev.g)
 StepTake     == Ev.ev = "Take"     /\ GTake(Ev.g, Ev.j) /\ Head(q[Ev.j]) = Ev.x /\ Aborted(Ev.g) = Ev.ab /\ Take(Ev.g, Ev.j)
-StepHandDone == Ev.ev = "HandDone" /\ GHandDone(Ev.g) /\ hs[Ev.g].x = Ev.x /\ hs[Ev.g].j + 1 = Ev.l /\ HandDone(Ev.g)
+StepHandDone == Ev.ev = "HandDone" /\ GHandDone(Ev.g) /\ hs[Ev.g].x = Ev.x /\ hs[Ev.g].j + 1 = Ev.l /\ ~Fails(Ev.l, Ev.x) /\ HandDone(Ev.g)
+StepHandFail == Ev.ev = "HandFail" /\ GHandDone(Ev.g) /\ hs[Ev.g].x = Ev.x /\ hs[Ev.g].j + 1 = Ev.l /\ Fails(Ev.l, Ev.x) /\ HandDone(Ev.g)
 StepOutput   == Ev.ev = "Output"   /\ GOutput(Ev.g) /\ Head(q[LastOf(Ev.g)]) = Ev.x /\ Aborted(Ev.g) = Ev.ab /\ Output(Ev.g)
 
-TraceInit == N = 0 /\ Groups = <<>> /\ Init /\ i = 1
+TraceInit == N = 0 /\ Groups = <<>> /\ failAt = <<>> /\ Init /\ i = 1
 TraceNext ==
     /\ i <= Len(Rec)
     /\ i' = i + 1
     /\ \/ StepReset \/ StepArrive \/ StepXfer \/ StepYield \/ StepInput
-       \/ StepBufDone \/ StepTake \/ StepHandDone \/ StepOutput
+       \/ StepBufDone \/ StepTake \/ StepHandDone \/ StepOutput \/ StepBufFail \/ StepHandFail
 TraceSpec == TraceInit /\ [][TraceNext]_tvars
 
 TraceAccepted ==
